@@ -178,6 +178,22 @@ Section Serialisable.
     end.
 End Serialisable.
 
+(* Unicode scalar values (what a Rust char / String can hold) *)
+Definition scalar (c : N) : Prop := c < 0xD800 \/ 0xE000 <= c <= 0x10ffff.
+
+Section StringsAll.
+  Variable F : Type.
+  Variable P : N -> Prop.
+  (* every character of every string and key of the value satisfies P *)
+  Fixpoint strings_all (v : value F) : Prop :=
+    match v with
+    | VStr s => Forall P s
+    | VArr l => fold_right (fun x a => strings_all x /\ a) True l
+    | VObj m => fold_right (fun kv a => match kv with (k, x) => Forall P k /\ strings_all x /\ a end) True m
+    | _ => True
+    end.
+End StringsAll.
+
 (* the texts whose surrogate escapes are all paired, with the value they denote *)
 Definition JText {F} (fparse : str -> option F) : str -> value F -> Prop := JTextG F fparse false.
 (* RFC 8259 syntax in full (unpaired surrogate escapes admitted) *)
